@@ -239,6 +239,7 @@ pub fn run_property<P: Prop>(p: &P, tier: Tier) -> i32 {
                                 }
                             }
                             let mut obs = Obs::default();
+                            let t_case = Instant::now();
                             let r = match catch(|| p.run(&case, &mut obs)) {
                                 Ok(r) => r,
                                 Err(pm) => Err(Fail::new(
@@ -246,6 +247,13 @@ pub fn run_property<P: Prop>(p: &P, tier: Tier) -> i32 {
                                     format!("unexpected panic outside a guarded call: {pm}"),
                                 )),
                             };
+                            let took = t_case.elapsed().as_secs_f64();
+                            if took > 2.0 {
+                                obs.add("slow_cases(>2s)", 1);
+                                if std::env::var("VERIF_SLOW").is_ok() {
+                                    eprintln!("slow case {:.1}s: {}", took, obs.sample.as_ref().map(|s| s.to_string()).unwrap_or_default());
+                                }
+                            }
                             match r {
                                 Ok(()) => {
                                     if !*failed.borrow() {
